@@ -524,7 +524,9 @@ func JudgeIdentity(repo repository.RepoData, ref string) Verdict {
 				if e.Name == "version" {
 					vs = append(vs, e)
 				} else {
-					j.X("%s: entry %q besides the version", w, e.Name)
+					// an identity commit is a tree with the single entry "version" (Identity.Commit writes
+					// exactly that); the statement lists extra tree entries among what must be refused
+					j.U("%s: entry %q besides the version", w, e.Name)
 				}
 			}
 			switch len(vs) {
@@ -545,7 +547,7 @@ func JudgeIdentity(repo repository.RepoData, ref string) Verdict {
 					j.U("ref name differs from the id of the first version")
 				}
 			default:
-				j.X("%s: several version entries", w)
+				j.U("%s: several version entries", w) // duplicated tree entry
 			}
 		}
 		if len(c.Parents) == 0 {
